@@ -65,13 +65,13 @@ Fixpoint parse_cf (n : nat) (fs : list bytes) : list (bytes * crypt_filter) * li
       end
   end.
 
-(* R V P bits em O U OE? UE? StmF? ncf (name method len?)*  ->  dictionary, rest *)
+(* R V P bits em O U OE? UE? StmF? StrF? ncf (name method len?)*  ->  dictionary, rest *)
 Definition parse_dict (fs : list bytes) : crypt_dict * list bytes :=
-  let ncf := N.to_nat (N_of_dec (fld fs 10)) in
-  let '(cf, rest) := parse_cf ncf (skipn 11 fs) in
+  let ncf := N.to_nat (N_of_dec (fld fs 11)) in
+  let '(cf, rest) := parse_cf ncf (skipn 12 fs) in
   ({| d_o := fld fs 5; d_u := fld fs 6; d_r := N_of_dec (fld fs 0); d_p := Z_of_dec (fld fs 2); d_v := Z_of_dec (fld fs 1);
       d_bits := (match fld fs 3 with [c] => if c =? 120 then 40 else N_of_dec [c] | l => N_of_dec l end);
-      d_cf := cf; d_stmf := opt_field (fld fs 9);
+      d_cf := cf; d_stmf := opt_field (fld fs 9); d_strf := opt_field (fld fs 10);
       d_em := (match fld fs 4 with [c] => negb (c =? 48) | _ => true end);
       d_oe := opt_field (fld fs 7); d_ue := opt_field (fld fs 8) |}, rest).
 
@@ -95,17 +95,17 @@ Fixpoint run_items (tbl : list oentry) (dc : decoder) (n : nat) (fs : list bytes
   | O => Ok ([], fs)
   | S k =>
       match fs with
-      | a :: b :: c :: rest =>
-          do x <- item_of (decrypt (o_md5 tbl) (o_dec tbl) dc (N_of_dec a) (N_of_dec b) c);
+      | [kind] :: a :: b :: c :: rest =>                 (* kind: "s" a string (decrypt_string), anything else a stream (decrypt) *)
+          do x <- item_of ((if kind =? 115 then decrypt_string else decrypt) (o_md5 tbl) (o_dec tbl) dc (N_of_dec a) (N_of_dec b) c);
           do yr <- run_items tbl dc k rest;
           let '(y, r) := yr in Ok (x :: y, r)
       | _ => Err 98
       end
   end.
 
-Definition tbl_after_items (n : nat) (fs : list bytes) : list bytes := skipn (3 * n) fs.
+Definition tbl_after_items (n : nat) (fs : list bytes) : list bytes := skipn (4 * n) fs.
 
-(* mode crypt_open: dict.. id password fuel nitems (obj gen data)* tables *)
+(* mode crypt_open: dict.. id password fuel nitems (kind obj gen data)* tables *)
 Definition run_crypt_open (fs : list bytes) : res (list bytes) :=
   let '(d, rest) := parse_dict fs in
   let id0 := fld rest 0 in let pass := fld rest 1 in
@@ -116,14 +116,14 @@ Definition run_crypt_open (fs : list bytes) : res (list bytes) :=
   do dc <- from_password (o_md5 tbl) (o_sha256 tbl) (o_sha384 tbl) (o_sha512 tbl) (o_enc tbl) (o_dec tbl) (o_prep tbl) fuel d id0 pass;
   do k <- dkey dc;                                  (* the harness observes the decoder through its Debug impl *)
   do yr <- run_items tbl dc n items;
-  Ok (k :: method_name (k_method dc) :: fst yr).
+  Ok (k :: method_name (k_method dc) :: method_name (k_smethod dc) :: fst yr).
 
-(* mode crypt_dec: key key_size method em nitems (obj gen data)* tables *)
+(* mode crypt_dec: key key_size method string_method em nitems (kind obj gen data)* tables *)
 Definition run_crypt_dec (fs : list bytes) : res (list bytes) :=
-  let dc := decoder_new (fld fs 0) (N_of_dec (fld fs 1)) (method_of (N_of_dec (fld fs 2)))
-                        (match fld fs 3 with [c] => c =? 49 | _ => false end) in
-  let n := N.to_nat (N_of_dec (fld fs 4)) in
-  let items := skipn 5 fs in
+  let dc := decoder_with (fld fs 0) (N_of_dec (fld fs 1)) (method_of (N_of_dec (fld fs 2))) (method_of (N_of_dec (fld fs 3)))
+                         (match fld fs 4 with [c] => c =? 49 | _ => false end) in
+  let n := N.to_nat (N_of_dec (fld fs 5)) in
+  let items := skipn 6 fs in
   let tbl := parse_tbl (length fs) (tbl_after_items n items) in
   do yr <- run_items tbl dc n items;
   Ok (fst yr).
